@@ -1,2 +1,43 @@
-(** Theorems for C09: filled in below as the proofs land. *)
-From JL Require Import Base.Json.
+(** * C09: <, <=, >, >= follow ECMAScript relational comparison, incl. between.
+    Statements only; proofs are in Proofs/Compare.v.  Hypothesis: the scanner lemma (Proofs/Scan.v). *)
+From Coq Require Import List Bool.
+From JL Require Import Base.Json Base.Dec2Flt Base.Monad Model.JsOp Model.Ops Spec.Specs Spec.OpSpecs Proofs.Compare.
+From Coq Require Import String NArith ZArith.
+Local Open Scope string_scope.
+Import ListNotations.
+
+Theorem C09_relational_partial :
+  (forall s, str_to_number s = es_str_to_number s) ->
+  forall a b,
+    abstract_lt a b = es_lt a b /\ abstract_lte a b = es_le a b /\
+    abstract_gt a b = es_lt b a /\ abstract_gte a b = es_le b a.
+Proof.
+  intros H a b. repeat split.
+  - apply abstract_lt_spec, H. - apply abstract_lte_spec, H.
+  - apply abstract_gt_spec, H. - apply abstract_gte_spec, H.
+Qed.
+Print Assumptions C09_relational_partial.
+
+(** a > b is b < a and a >= b is b <= a: the duplicated code paths agree *)
+Theorem C09_mirrored_partial :
+  (forall s, str_to_number s = es_str_to_number s) ->
+  forall a b, abstract_gt a b = abstract_lt b a /\ abstract_gte a b = abstract_lte b a.
+Proof.
+  intros H a b. split.
+  - rewrite (abstract_gt_spec H), (abstract_lt_spec H). reflexivity.
+  - reflexivity.
+Qed.
+Print Assumptions C09_mirrored_partial.
+
+(** two operands: the comparison; three operands: the conjunction of the adjacent comparisons *)
+Theorem C09_between :
+  forall f a b c,
+    Ops.compare f [a; b] = Ok (Bool (f a b)) /\ Ops.compare f [a; b; c] = Ok (Bool (f a b && f b c)).
+Proof. intros f a b c. split; [reflexivity|]. unfold Ops.compare. cbn. destruct (f a b); reflexivity. Qed.
+Print Assumptions C09_between.
+
+Example C09_nonvacuous :
+  es_le Null (Num (PosInt 0%N)) = true /\ es_le (Arr [Num (PosInt 1%N)]) (Arr [Num (PosInt 1%N)]) = true /\
+  es_lt (Arr [Num (PosInt 10%N)]) (Arr [Num (PosInt 9%N)]) = true /\
+  es_lt (Num (PosInt 1%N)) (Str (lit "abc")) = false /\ es_le (Str (lit "abc")) (Num (PosInt 1%N)) = false.
+Proof. vm_compute. repeat split. Qed.
